@@ -13,7 +13,7 @@ CHECK = {'pkg': './mocks',
          'sync: SendMessage and SendMessages batches of 0-6, expectations up front or interleaved with calls. Oracle: i-th submission <-> i-th expectation '
          '(outcome = scripted error by identity / checker error / success), k-th success has offset k, exactly one outcome per message that met an '
          'expectation, msg.Partition = choice of an identically constructed partitioner over the configured count (range only for random and keyless '
-         'hash), SendMessage returns msg.Partition and msg.Offset, each checker runs once on its message and sees the chosen partition, reporter calls = '
+         'hash), SendMessage returns msg.Offset and a partition that is msg.Partition or at least one of the topic\'s partitions, each checker runs once on its message and sees the chosen partition, reporter calls = '
          'multiset {input without expectation, leftover at Close, failing checker} scripted. Consumer (part consumer): 0-4 registered partitions '
          '(literal offset or AnyOffset, drain expectations, repeated ExpectConsumePartition), 0-30 yields of messages/errors across them, up to 25 steps of '
          'ConsumePartition (right/wrong offset, unknown partition, twice), non-blocking reads of Messages()/Errors(), HighWaterMarkOffset, '
@@ -28,6 +28,10 @@ CHECK = {'pkg': './mocks',
                  'after a SendMessages batch fails at message k the fate of the messages behind k is undocumented: nothing is asserted about them, and '
                  'the offsets / round-robin turns they may have used are unknowns of the model',
                  'partitioner errors, Expect...AndFail(nil), nil message values with value checkers and yields beyond the channel buffer are outside the domain',
+                 'the partition RETURNED by the sync mock\'s SendMessage is only required to be msg.Partition or a partition the topic has: the pinned mock '
+                 'returns 0 whatever it chose, and the repository\'s own examples/http_server test pins that 0',
+                 'async mock: what a message beyond the script gets besides the report is undocumented; an error outcome carrying none of the script\'s '
+                 'errors is tolerated for such a message (a success is not)',
                  'a wait on the async mock is declared a hang only after 60 s without any completed send or receive while the harness services every channel']}
 
 TEXT = {'level': 'Generated-input search over scripts for the three mocks (expectation kinds, checker mixes, script vs. submission length, partitioners and '
